@@ -306,6 +306,10 @@ def shard_fn(shard, nshards, seed, tier, exe, nconf, nrob):
                     for j in range(k):
                         hist += ["NEW 9 - int %d" % j, "AADD 5 9"]
                     hist.append("ADEL 5 %d %d" % (len(c), k))
+            strs = [q for q in all_paths(doc) if isinstance(node_at(doc, q), bytes) and b"\0" not in node_at(doc, q)]
+            for q in rng.sample(strs, min(len(strs), rng.choice([0, 1, 2]))):
+                x = node_at(doc, q)
+                hist += ["NAV 0 5 " + " ".join(("i%d" % y) if isinstance(y, int) else "k" + y.hex() for y in q), "SSTR 5 x" + (x + b"-longer-for-a-while-" * 3).hex(), "SSTR 5 x" + x.hex()]
             if hist:
                 sh.count("documents.with_grow_shrink_history")
         cmds = ["P 0 64 1 x%s 0" % dt.hex()] + hist + ["P 0 64 1 x%s 1" % pt.hex(), "D 1"]
